@@ -6,6 +6,7 @@ HOOK_COMMITS = subprocess.run(["git", "-C", "/repo", "log", "--format=%h %s"], c
 HOOK_COMMITS = [l.split()[0] for l in HOOK_COMMITS if l.split(" ", 1)[1].startswith("verif hooks")]
 
 ENGINES = {
+ "seqx-component": ("harness/src/props/c04.rs, c12.rs, c13.rs, c18.rs", "bounded-exhaustive enumeration against real components reached through the cfg(surrealkv_verif) facades (conflict oracle, commit-log writer/reader/repair, table writer/reader, B+tree), each compared with a small reference model"),
  "seqx-txn": ("harness/src/props/c08.rs, harness/src/props/c09.rs", "bounded-exhaustive programs (transaction calls / cursor calls) against the real Transaction API on stores built by a construction script, compared call by call with a reference model"),
  "seqx-world": ("harness/src/world.rs", "bounded-exhaustive operation sequences on the real store under a harness-driven single-threaded runtime (background tasks run only where the sequence says), compared with a reference model after every step; stateless re-execution from a fresh directory"),
 }
@@ -28,6 +29,18 @@ CHECKS = {
  "C09": dict(engine="seqx-txn", cat="model_checking", tech=SEQ_TECH,
   text="For every layout of a placement grammar (8 placements per key across write-set, memtable, L0, L1, incl. tombstones and versions invisible to the snapshot), every bounds pair (absent sides, empty, inverted) and every cursor program up to a length bound, the real range cursor is compared step by step (return value, valid, key, value) with a cursor over the sorted list of live keys in [lo, hi).",
   note="Exhaustive within keys/program-length/reversal bounds; one option set with one entry per block and per index partition; after the cursor ran off an end only seeks are issued (as the property states).", ref="DESIGN.md §5 C09"),
+ "C04": dict(engine="seqx-component", cat="model_checking", tech=SEQ_TECH,
+  text="All event lists (begin, commit of live transaction #i on {a}|{b}|{a,b} with or without a failing memtable apply, abort, pin/unpin of a read-only observer; at most 3 live and 4 transactions) up to a length bound run (A) on the real CommitOracle + ActiveTxnTracker with the GC throttle forced to 2 and 3 so the real gate and sweep run, the harness playing the commit critical section in the pipeline's order, and (B) on the real store through begin/commit with injected apply failures; every admission/rejection is compared with a full-history conflict model and the committed state with a map model.",
+  note="Sequential event orders only (no interleavings inside begin() or inside the commit critical section); two keys; GC interval forced by a hook that bumps the real counter to the real threshold.", ref="DESIGN.md §5 C04"),
+ "C12": dict(engine="seqx-component", cat="fault_enumeration", tech="exhaustive damage enumeration (every truncation offset / bit flip / byte XOR of an enumerated position set) on files written and read by the real commit-log code, vs. a record-list model",
+  text="For every record-length sequence of a block-boundary-focused alphabet (x LZ4 on/off x session split) the segment written by the real writer is read back, then damaged at every position of an enumerated set by truncation, byte XOR and each single-bit flip; each damaged file is read, repaired when corruption is reported, read again, appended to by a fresh writer and read a last time; the prefix rule of the property is checked at every stage.",
+  note="File-level part (writer, reader, repair through the facade). Files above the size bound are damaged at every header/padding/fragment-edge/block-boundary byte rather than at every byte (an enumerated set, reported in evidence). Store-level recovery modes are judged by the crash engine.", ref="DESIGN.md §5 C12"),
+ "C13": dict(engine="seqx-component", cat="model_checking", tech=SEQ_TECH,
+  text="Every non-empty subset (up to a size bound) of a universe of versioned entries over adversarial user keys is written by the real TableWriter for each of 108 table-format option sets (+ block sizes below the per-block overhead), reopened by the real Table reader and compared with the sorted input: forward, backward, seek (+next/prev) to every (key, seq) target incl. absent keys, point lookup for every key x snapshot, all range bounds, and the key-range shortcuts.",
+  note="Tables live in memory (Vec<u8> implements the crate's File trait); universe and option product are fixed finite lists, enumerated completely within the subset-size bound.", ref="DESIGN.md §5 C13"),
+ "C18": dict(engine="seqx-component", cat="model_checking", tech="explicit-state BFS over the real B+tree with exact state identity (file bytes) + stateless enumeration of live operation lists, vs. BTreeMap and a page audit",
+  text="Breadth-first search over insert (three size classes incl. overflow chains) / delete on skewed key sets under both comparators; a state is the exact file content after flush, every transition reopens the tree from the state's bytes, applies one operation, compares get / range / cursor (forward, backward, seek) with a BTreeMap and audits every page (reachable + free list = all pages, disjoint, header counter, leaf chain); a second pass runs all short operation lists on one live tree (warm node cache) followed by a reopen. Seeds include a prefilled 3-level tree.",
+  note="Exhaustive to the stated depth from each seed state; state identity is a 64-bit hash of the file bytes; key sets and size classes are fixed lists chosen to force splits, merges, redistribution, overflow and free-list reuse.", ref="DESIGN.md §5 C18"),
 }
 
 NOT_YET = {}
